@@ -35,6 +35,7 @@ func TestCheck(t *testing.T) {
 	}
 	pbt.Add(s, &pbt.Spec[txm.Case]{Name: "history", Gen: gen, Run: txm.Run, Quick: 400, Thorough: 30000, Shards: 16})
 	pbt.Add(s, &pbt.Spec[ioCase]{Name: "iofault", Gen: genIO, Run: runIO, Quick: 240, Thorough: 8000, Shards: 8})
+	pbt.Add(s, &pbt.Spec[sCase]{Name: "sched", Gen: genSched, Run: runSched, Quick: 400, Thorough: 12000, Shards: 8})
 	pbt.Add(s, &pbt.Spec[bulkCase]{Name: "bulk", Gen: genBulk, Run: runBulk, Quick: 60, Thorough: 3000, Shards: 8})
 	s.Main(t)
 }
